@@ -10,25 +10,95 @@ namespace RtenVerif.Generator
 theorem fed_append (l : List Call) (c : Call) : fed (l ++ [c]) = fed l ++ c.toks := by
   simp [fed, List.flatMap_append]
 
-theorem fed_nil : fed [] = [] := rfl
+theorem logRun_append (st : LogSt) (l : List Call) (c : Call) :
+    logRun st (l ++ [c]) = logStep (logRun st l) c := by
+  simp [logRun, List.foldl_append]
 
-theorem logOk_append (l : List Call) (c : Call) (i p : Nat) :
-    logOk i p (l ++ [c]) =
-      (logOk i p l && (c.start == p + (fed l).length &&
-        c.cacheIn == some (i + l.length, p + (fed l).length))) := by
-  induction l generalizing i p with
-  | nil => simp [logOk, fed]
-  | cons d ds ih =>
-    simp only [List.cons_append, logOk, ih, fed, List.flatMap_cons, List.length_append,
-      List.length_cons]
-    have h1 : p + d.toks.length + (List.flatMap (fun x => x.toks) ds).length
-        = p + (d.toks.length + (List.flatMap (fun x => x.toks) ds).length) := by omega
-    have h2 : i + 1 + ds.length = i + (ds.length + 1) := by omega
-    rw [h1, h2]
-    simp only [Bool.and_assoc]
+theorem logStep_good (st : LogSt) (c : Call) (h : (logStep st c).good = true) :
+    st.good = true ∧ c.start = st.pos ∧ c.cacheIn = some st.held ∧
+    c.attn = st.pos + c.toks.length ∧ c.flag = (st.pos != 0) ∧ c.encIn = st.enc := by
+  unfold logStep at h
+  cases hok : c.ok <;> simp only [hok, Bool.false_eq_true, ↓reduceIte, Bool.and_eq_true,
+    beq_iff_eq] at h <;> obtain ⟨⟨⟨⟨⟨h1, h2⟩, h3⟩, h4⟩, h5⟩, h6⟩ := h <;>
+    exact ⟨h1, h2, h3, h4, h5, h6⟩
+
+theorem logRun_good_mono (l : List Call) (st : LogSt) (h : (logRun st l).good = true) :
+    st.good = true := by
+  induction l generalizing st with
+  | nil => exact h
+  | cons c cs ih =>
+    have := ih (logStep st c) (by simpa [logRun] using h)
+    exact (logStep_good st c this).1
+
+theorem logRun_idx (l : List Call) (st : LogSt) : (logRun st l).idx = st.idx + l.length := by
+  induction l generalizing st with
+  | nil => simp [logRun]
+  | cons c cs ih =>
+    have h := ih (logStep st c)
+    simp only [logRun, List.foldl_cons, List.length_cons] at h ⊢
+    rw [h]; unfold logStep; cases c.ok <;> simp <;> omega
+
+/-- Per-call reading of a well-formed log: call `k` meets the expectation computed from the
+calls before it. -/
+theorem logRun_get (l : List Call) (st : LogSt) (h : (logRun st l).good = true) (k : Nat)
+    (hk : k < l.length) :
+    l[k].start = (logRun st (l.take k)).pos ∧ l[k].cacheIn = some (logRun st (l.take k)).held ∧
+    l[k].attn = (logRun st (l.take k)).pos + l[k].toks.length ∧
+    l[k].flag = ((logRun st (l.take k)).pos != 0) ∧ l[k].encIn = (logRun st (l.take k)).enc := by
+  induction l generalizing st k with
+  | nil => simp at hk
+  | cons c cs ih =>
+    have hrest : (logRun (logStep st c) cs).good = true := by simpa [logRun] using h
+    cases k with
+    | zero =>
+      have := logStep_good st c (logRun_good_mono cs _ hrest)
+      simpa [logRun] using this.2
+    | succ k =>
+      have := ih (logStep st c) hrest k (by simpa using hk)
+      simpa [logRun] using this
+
+/-- A log without failed calls: the expectation is the plain one. -/
+theorem logRun_all_ok (l : List Call) (st : LogSt) (hall : ∀ c ∈ l, c.ok = true)
+    (len : Nat) (hheld : st.held = some (st.idx, len)) :
+    (logRun st l).held = some (st.idx + l.length, len + (fed l).length) ∧
+    (logRun st l).pos = st.pos + (fed l).length := by
+  induction l generalizing st len with
+  | nil => simp [logRun, fed, hheld]
+  | cons c cs ih =>
+    have hc := hall c List.mem_cons_self
+    have hstep : (logStep st c).held = some ((logStep st c).idx, len + c.toks.length) ∧
+        (logStep st c).idx = st.idx + 1 ∧ (logStep st c).pos = st.pos + c.toks.length := by
+      simp [logStep, hc, hheld]
+    have := ih (logStep st c) (fun d hd => hall d (List.mem_cons_of_mem _ hd)) _ hstep.1
+    simp only [logRun, List.foldl_cons, List.length_cons, fed, List.flatMap_cons,
+      List.length_append] at this ⊢
+    rw [this.1, this.2, hstep.2.1, hstep.2.2]
+    constructor
+    · congr 1; ext <;> simp <;> omega
+    · omega
+
+/-- Positions seen by the successful calls of a well-formed log are consecutive. -/
+theorem positions_okCalls (l : List Call) (st : LogSt) (h : (logRun st l).good = true) :
+    positions (okCalls l) = List.range' st.pos (fed (okCalls l)).length := by
+  induction l generalizing st with
+  | nil => simp [positions, fed, okCalls]
+  | cons c cs ih =>
+    have hrest : (logRun (logStep st c) cs).good = true := by simpa [logRun] using h
+    have hc := logStep_good st c (logRun_good_mono cs _ hrest)
+    have := ih (logStep st c) hrest
+    cases hok : c.ok with
+    | false =>
+      have hp : (logStep st c).pos = st.pos := by simp [logStep, hok]
+      simpa [okCalls, List.filter_cons, hok, hp] using this
+    | true =>
+      have hp : (logStep st c).pos = st.pos + c.toks.length := by simp [logStep, hok]
+      simp only [okCalls, List.filter_cons, hok, ↓reduceIte, positions, fed, List.flatMap_cons,
+        List.length_append] at this ⊢
+      rw [this, hp, hc.2.1, List.range'_append_1]
 
 theorem logOkNoKv_append (l : List Call) (c : Call) :
-    logOkNoKv (l ++ [c]) = (logOkNoKv l && (c.start == 0 && c.cacheIn == none)) := by
+    logOkNoKv (l ++ [c]) = (logOkNoKv l && (c.start == 0 && c.cacheIn == none &&
+      c.attn == c.toks.length && c.flag == false)) := by
   induction l with
   | nil => simp [logOkNoKv]
   | cons d ds ih => simp only [List.cons_append, logOkNoKv, ih, Bool.and_assoc]
@@ -90,16 +160,20 @@ structure Inv (hasKv : Bool) (s : State) (sp : Spec) (log : List Call) : Prop wh
   rec_le : s.recorded ≤ s.inputIds.length
   pend : sp.pend = flagged s.inputIds s.recorded
   prev : s.prev = sp.hist
-  calls : log.map (·.toks) = sp.calls
+  calls : log.map (fun c => (c.toks, c.ok)) = sp.calls
   ncalls : s.calls = log.length
   kvOn : hasKv = true →
-    s.kv = some (log.length, (fed log).length) ∧ s.offset = (fed log).length ∧ logOk 0 0 log = true
+    s.kv = some (logRun LogSt.init log).held ∧ s.offset = (logRun LogSt.init log).pos ∧
+    s.enc = (logRun LogSt.init log).enc ∧ (logRun LogSt.init log).good = true
   kvOff : hasKv = false → s.kv = none ∧ s.offset = 0 ∧ logOkNoKv log = true
 
 theorem inv_init (hasKv : Bool) : Inv hasKv (State.init hasKv) Spec.init [] := by
-  constructor <;> simp [State.init, Spec.init, flagged, fed, logOk, logOkNoKv]
+  constructor <;> simp [State.init, Spec.init, flagged, logRun, LogSt.init, logOkNoKv]
 
-/-- `generate_impl` preserves the invariant (against `Spec.feed`). -/
+theorem logRun_init_idx (log : List Call) : (logRun LogSt.init log).idx = log.length := by
+  rw [logRun_idx]; simp [LogSt.init]
+
+/-- `generate_impl` (successful run) preserves the invariant (against `Spec.feed`). -/
 theorem inv_generateImpl (hasKv : Bool) (s : State) (sp : Spec) (log : List Call) (lg : Bool)
     (h : Inv hasKv s sp log) :
     Inv hasKv (generateImpl .tracked s lg).1 (sp.feed hasKv)
@@ -111,19 +185,22 @@ theorem inv_generateImpl (hasKv : Bool) (s : State) (sp : Spec) (log : List Call
   obtain ⟨hrec, hpend, hprev, hcalls, hn, hon, hoff⟩ := h
   cases hasKv with
   | true =>
-    obtain ⟨hkv, hoffs, hlog⟩ := hon rfl
+    obtain ⟨hkv, hoffs, henc, hgood⟩ := hon rfl
+    have hidx := logRun_init_idx log
     simp only [generateImpl, hkv]
     refine ⟨⟨?_, ?_, ?_, ?_, ?_, ?_, ?_⟩, ?_, ?_⟩
     · simp
     · simp [Spec.feed, flagged]
     · simp [Spec.feed, hpend, flagged_fresh, hprev]
-    · simp [Spec.feed, hpend, flagged_toks, hcalls]
+    · simp [Spec.feed, hpend, flagged_toks, hcalls, callOf]
     · simp [hn]
     · intro _
-      refine ⟨?_, ?_, ?_⟩
-      · simp [fed_append, hn]
-      · simp [fed_append, hoffs]
-      · rw [logOk_append]; simp [hlog, hoffs]
+      rw [logRun_append]
+      simp only [logStep, callOf, hkv, hoffs, henc, hgood, hidx, hn, beq_self_eq_true,
+        Bool.and_self, ↓reduceIte]
+      cases (logRun LogSt.init log).held with
+      | none => simp
+      | some pr => simp
     · intro hc; cases hc
     · intro _; simp
     · intro hc; cases hc
@@ -134,14 +211,32 @@ theorem inv_generateImpl (hasKv : Bool) (s : State) (sp : Spec) (log : List Call
     · simp
     · simp [Spec.feed, hpend, flagged_clear, flagged_all]
     · simp [Spec.feed, hpend, flagged_fresh, hprev]
-    · simp [Spec.feed, hpend, flagged_toks, hcalls]
+    · simp [Spec.feed, hpend, flagged_toks, hcalls, callOf]
     · simp [hn]
     · intro hc; cases hc
     · intro _
       refine ⟨rfl, hoffs, ?_⟩
-      rw [logOkNoKv_append]; simp [hlog, hoffs]
+      rw [logOkNoKv_append]; simp [hlog, hoffs, hkv, callOf]
     · intro hc; cases hc
     · intro _; simp
+
+/-- A failed run preserves the invariant (against `Spec.feedFail`). -/
+theorem inv_generateFail (hasKv : Bool) (s : State) (sp : Spec) (log : List Call) (lg : Bool)
+    (h : Inv hasKv s sp log) :
+    Inv hasKv (generateFail s lg).1 sp.feedFail (log ++ [(generateFail s lg).2]) := by
+  obtain ⟨hrec, hpend, hprev, hcalls, hn, hon, hoff⟩ := h
+  simp only [generateFail]
+  refine ⟨hrec, by simpa [Spec.feedFail] using hpend, by simpa [Spec.feedFail] using hprev, ?_, ?_, ?_, ?_⟩
+  · simp [Spec.feedFail, hpend, flagged_toks, hcalls, callOf]
+  · simp [hn]
+  · intro hk
+    obtain ⟨hkv, hoffs, henc, hgood⟩ := hon hk
+    rw [logRun_append]
+    simp [logStep, callOf, hkv, hoffs, henc, hgood]
+  · intro hk
+    obtain ⟨hkv, hoffs, hlog⟩ := hoff hk
+    refine ⟨by simp [hkv], hoffs, ?_⟩
+    rw [logOkNoKv_append]; simp [hlog, hoffs, hkv, callOf]
 
 /-- Every operation preserves the invariant. -/
 theorem inv_step (hasKv : Bool) (s : State) (sp : Spec) (log : List Call) (op : Op)
@@ -163,6 +258,12 @@ theorem inv_step (hasKv : Bool) (s : State) (sp : Spec) (log : List Call) (op : 
     exact ⟨by simp, by simp [flagged], hprev, hcalls, hn, hon, hoff⟩
   | process =>
     have hg := (inv_generateImpl hasKv s sp log false h).1
+    simpa [step, Spec.step, Option.toList] using hg
+  | processFail =>
+    have hg := inv_generateFail hasKv s sp log false h
+    simpa [step, Spec.step, Option.toList] using hg
+  | nextFail =>
+    have hg := inv_generateFail hasKv s sp log true h
     simpa [step, Spec.step, Option.toList] using hg
   | nextEmpty =>
     have hg := (inv_generateImpl hasKv s sp log true h).1
@@ -204,48 +305,97 @@ theorem inv_run (hasKv : Bool) (ops : List Op) :
   have h := inv_runFrom hasKv ops _ _ _ (inv_init hasKv)
   simpa [run, Spec.run] using h
 
-/-- `logOk` implies the flattened position list is `0, 1, 2, …`. -/
-theorem positions_of_logOk (log : List Call) (i p : Nat) (h : logOk i p log = true) :
-    positions log = List.range' p (fed log).length := by
-  induction log generalizing i p with
-  | nil => simp [positions, fed]
-  | cons c cs ih =>
-    simp only [logOk, Bool.and_eq_true, beq_iff_eq] at h
-    obtain ⟨⟨hs, _⟩, hrest⟩ := h
-    have := ih _ _ hrest
-    simp only [positions, fed, List.flatMap_cons, List.length_append] at this ⊢
-    rw [this, hs, List.range'_append_1]
+theorem generateImpl_call (r : Rule) (s : State) (lg : Bool) :
+    (generateImpl r s lg).2 = callOf s lg true := by
+  unfold generateImpl; cases s.kv <;> rfl
 
-/-- Per-call reading of `logOk`. -/
-theorem logOk_get (log : List Call) (i p : Nat) (h : logOk i p log = true) (k : Nat)
-    (hk : k < log.length) :
-    log[k].start = p + (fed (log.take k)).length ∧
-    log[k].cacheIn = some (i + k, p + (fed (log.take k)).length) := by
-  induction log generalizing i p k with
-  | nil => simp at hk
-  | cons c cs ih =>
-    simp only [logOk, Bool.and_eq_true, beq_iff_eq] at h
-    obtain ⟨⟨hs, hc⟩, hrest⟩ := h
-    cases k with
-    | zero => simp [fed, hs, hc]
-    | succ k =>
-      have hk' : k < cs.length := by simpa using hk
-      have := ih _ _ hrest k hk'
-      simp only [List.getElem_cons_succ, List.take_succ_cons, fed, List.flatMap_cons,
-        List.length_append] at this ⊢
-      constructor
-      · rw [this.1]; omega
-      · rw [this.2]; congr 1; ext <;> simp <;> omega
+theorem step_call_ok (r : Rule) (s : State) (op : Op) (hf : op.isFail = false) :
+    ∀ c, (step r s op).call = some c → c.ok = true := by
+  intro c hc
+  cases op with
+  | withPrompt p => simp [step] at hc
+  | append p => simp [step] at hc
+  | clear => simp [step] at hc
+  | processFail => simp [Op.isFail] at hf
+  | nextFail => simp [Op.isFail] at hf
+  | process =>
+    have : (step r s .process).call = some (generateImpl r s false).2 := rfl
+    rw [this, generateImpl_call] at hc; cases hc; rfl
+  | nextEmpty =>
+    have : (step r s .nextEmpty).call = some (generateImpl r s true).2 := by
+      simp only [step]; split <;> rfl
+    rw [this, generateImpl_call] at hc; cases hc; rfl
+  | next t =>
+    have : (step r s (.next t)).call = some (generateImpl r s true).2 := by
+      simp only [step]; split <;> rfl
+    rw [this, generateImpl_call] at hc; cases hc; rfl
+
+/-- Without failing operations every logged call succeeded. -/
+theorem runFrom_all_ok (r : Rule) (ops : List Op) (s : State)
+    (hops : ∀ op ∈ ops, op.isFail = false) : ∀ c ∈ (runFrom r s ops).2, c.ok = true := by
+  induction ops generalizing s with
+  | nil => simp [runFrom]
+  | cons op ops ih =>
+    intro c hc
+    simp only [runFrom, List.mem_append] at hc
+    rcases hc with hc | hc
+    · have hf := hops op List.mem_cons_self
+      cases hcall : (step r s op).call with
+      | none => simp [hcall] at hc
+      | some d =>
+        simp only [hcall, Option.toList, List.mem_singleton] at hc
+        subst hc
+        exact step_call_ok r s op hf c hcall
+    · exact ih _ (fun o ho => hops o (List.mem_cons_of_mem _ ho)) c hc
 
 theorem logOkNoKv_get (log : List Call) (h : logOkNoKv log = true) (k : Nat)
-    (hk : k < log.length) : log[k].start = 0 ∧ log[k].cacheIn = none := by
+    (hk : k < log.length) :
+    log[k].start = 0 ∧ log[k].cacheIn = none ∧ log[k].attn = log[k].toks.length ∧
+    log[k].flag = false := by
   induction log generalizing k with
   | nil => simp at hk
   | cons c cs ih =>
     simp only [logOkNoKv, Bool.and_eq_true, beq_iff_eq] at h
-    obtain ⟨⟨hs, hc⟩, hrest⟩ := h
+    obtain ⟨⟨⟨⟨hs, hc⟩, ha⟩, hf⟩, hrest⟩ := h
     cases k with
-    | zero => simp [hs, hc]
+    | zero => simp [hs, hc, ha, hf]
     | succ k => simpa using ih hrest k (by simpa using hk)
+
+/-! ## Models without KV cache: the whole recorded history is fed again -/
+
+/-- `prev_tokens` is the already-recorded prefix of the pending tokens. -/
+def Refeed (s : State) : Prop :=
+  s.kv = none ∧ s.recorded ≤ s.inputIds.length ∧ s.prev = s.inputIds.take s.recorded
+
+theorem refeed_step (s : State) (op : Op) (h : Refeed s) (hd : op.discards = false) :
+    Refeed (step .tracked s op).st := by
+  obtain ⟨hkv, hrec, hprev⟩ := h
+  cases op with
+  | withPrompt p => simp [Op.discards] at hd
+  | clear => simp [Op.discards] at hd
+  | append p =>
+    refine ⟨hkv, by simp [step]; omega, ?_⟩
+    simp [step, hprev, List.take_append_of_le_length hrec]
+  | process => simp [step, generateImpl, hkv, Refeed, hprev]
+  | processFail => simp [step, generateFail, hkv, Refeed, hprev, hrec]
+  | nextFail => simp [step, generateFail, hkv, Refeed, hprev, hrec]
+  | nextEmpty =>
+    by_cases he : s.inputIds.isEmpty = true <;>
+      simp [step, generateImpl, hkv, Refeed, hprev, he]
+  | next t =>
+    by_cases he : s.inputIds.isEmpty = true
+    · simp [step, generateImpl, hkv, Refeed, hprev, he]
+    · have ht : List.take (s.inputIds.length + 1) (s.inputIds ++ [t]) = s.inputIds ++ [t] := by
+        apply List.take_of_length_le; simp
+      simp [step, generateImpl, hkv, Refeed, hprev, he, ht]
+
+theorem refeed_runFrom (ops : List Op) (s : State) (h : Refeed s)
+    (hd : ∀ op ∈ ops, op.discards = false) : Refeed (runFrom .tracked s ops).1 := by
+  induction ops generalizing s with
+  | nil => simpa [runFrom] using h
+  | cons op ops ih =>
+    simp only [runFrom]
+    exact ih _ (refeed_step s op h (hd op List.mem_cons_self))
+      (fun o ho => hd o (List.mem_cons_of_mem _ ho))
 
 end RtenVerif.Generator
